@@ -11,7 +11,7 @@ from .oracle import diff, fingerprint
 from .rng import H
 from .simcfg import gen_sim_cfg, simpler_sim_cfgs
 from .simpool import Sim, Installed, SimDeadlock
-from .workload import gen_band, gen_signal_spec, build_signal, gen_cf_kwargs, \
+from .workload import thorough, gen_band, gen_signal_spec, build_signal, gen_cf_kwargs, \
     gen_thresholds, gen_burst_kwargs, gen_find_extrema_kwargs
 
 ID = 'C11'
@@ -41,6 +41,8 @@ PROGRESS_KEYS = ('cycles', 'amp')
 def gen_plan(wl, fr, idx):
     band = gen_band(wl)
     R = wl.choices((1, 2, 3, 4, 5, 6), weights=(8, 17, 25, 20, 15, 15))[0]
+    if thorough() and wl.random() < 0.3:
+        R = wl.randint(7, 10)
     rows = [gen_signal_spec(wl, band, i) for i in range(R)]
     plan = {'band': band, 'rows': rows}
     entry = 'object' if wl.random() < 0.3 else 'function'
@@ -51,8 +53,13 @@ def gen_plan(wl, fr, idx):
             plan['options'] = None
         elif r < 0.5:
             plan['options'] = {'shared': gen_cf_kwargs(wl)}
-        else:
+        elif wl.random() < 0.5:
             plan['options'] = {'list': [gen_cf_kwargs(wl) for _ in range(R)]}
+        else:
+            # option sets repeated across rows (e.g. [A, B, B, A]); optionally as the same dict object
+            palette = [gen_cf_kwargs(wl) for _ in range(wl.choice((2, 2, 3)))]
+            plan['options'] = {'list': [copy.deepcopy(wl.choice(palette)) for _ in range(R)]}
+            plan['alias_equal'] = wl.random() < 0.5
         plan['return_samples'] = wl.random() < 0.6
     else:
         method = wl.choice(('cycles', 'cycles', 'amp'))
@@ -61,6 +68,7 @@ def gen_plan(wl, fr, idx):
                         'burst_kwargs': gen_burst_kwargs(wl, method), 'thresholds': th,
                         'find_extrema_kwargs': gen_find_extrema_kwargs(wl),
                         'return_samples': wl.random() < 0.6}
+        plan['prefit'] = wl.random() < 0.4
     plan['n_jobs'] = wl.choice(sorted({1, 2, 3, max(1, R - 1), R, R + 1, 2 * R + 1}) + [-1])
     plan['progress'] = wl.choice((None, None, 'tqdm', 'tqdm.notebook'))
     plan['tqdm'] = wl.choice(('absent', 'stub'))
@@ -131,6 +139,12 @@ def execute(plan, tape):
                         kw = ref.live(opt['shared'])
                     else:
                         kw = [ref.live(o) for o in opt['list']]
+                        if plan.get('alias_equal'):      # equal option sets are one and the same object
+                            for a in range(len(kw)):
+                                for b in range(a):
+                                    if opt['list'][a] == opt['list'][b]:
+                                        kw[a] = kw[b]
+                                        break
                     out = compute_features_2d(sigs, fs, f_range, compute_features_kwargs=kw, axis=0,
                                               return_samples=plan['return_samples'],
                                               n_jobs=plan['n_jobs'], progress=plan['progress'])
@@ -141,6 +155,9 @@ def execute(plan, tape):
                                       burst_kwargs=c['burst_kwargs'], thresholds=c['thresholds'],
                                       find_extrema_kwargs=c['find_extrema_kwargs'],
                                       return_samples=c['return_samples'])
+                    if plan.get('prefit'):
+                        # the object was used before: an earlier fit on other data of the same shape
+                        bg.fit(-sigs[::-1] * 0.5, fs, f_range, axis=0, n_jobs=1, progress=None)
                     bg.fit(sigs, fs, f_range, axis=0, n_jobs=plan['n_jobs'], progress=plan['progress'])
                     out = bg.df_features
             except SimDeadlock as e:
@@ -174,6 +191,11 @@ def execute(plan, tape):
         res.stats['fault.oversubscribe'] += 1
     if R == 1:
         res.stats['probe.single_row'] += 1
+    if plan.get('prefit'):
+        res.stats['probe.object_refit'] += 1
+    if plan.get('options') and 'list' in (plan.get('options') or {}) and len(
+            {repr(sorted(o.items())) for o in plan['options']['list']}) < R:
+        res.stats['probe.list_with_repeated_option_sets'] += 1
     if plan['entry'] == 'object':
         res.stats['probe.object_entry'] += 1
     elif plan.get('options') and 'list' in plan['options']:
@@ -291,7 +313,7 @@ def shrink(plan):
                 del p['options']['shared'][k]
                 yield p
     for key, val in (('n_jobs', 1), ('n_jobs', 2), ('progress', None), ('tqdm', 'absent'),
-                     ('return_samples', True)):
+                     ('return_samples', True), ('prefit', False), ('alias_equal', False)):
         if key in plan and plan[key] != val:
             p = copy.deepcopy(plan)
             p[key] = val
